@@ -67,6 +67,7 @@ def parseOp (line : String) : Option Op :=
   | ["srange", a, b, c, w] => do some (.srange (← n? a) (← n? b) (← n? c) w)
   | ["inp", a, b, c] => do some (.inp (← n? a) (← n? b) (← n? c))
   | ["input"] => some .input
+  | ["reclaim"] => some .reclaim
   | ["inpr", a, b, c] => do some (.inpr (← n? a) (← n? b) (← n? c))
   | ["rest", w] => some (.rest w)
   | ["resto", w] => some (.resto w)
@@ -118,6 +119,7 @@ def lpcOnly : Op → Bool
   | .srange _ _ _ _ => true
   | .fefun _ _ _ _ => true
   | .frest _ _ => true
+  | .reclaim => true
   | _ => false
 
 def renderRefs (h : List Cell) : String :=
